@@ -5,7 +5,11 @@ open Model
 let rec pos_of_int (i : int) : positive =
   if i = 1 then XH else if i land 1 = 0 then XO (pos_of_int (i lsr 1)) else XI (pos_of_int (i lsr 1))
 let n_of_int (i : int) : n = if i = 0 then N0 else Npos (pos_of_int i)
-let rec int_of_pos = function XH -> 1 | XO p -> 2 * int_of_pos p | XI p -> 2 * int_of_pos p + 1
+(* saturating: a value beyond the native range reads as max_int (never wraps to 0 or a negative number) *)
+let rec int_of_pos = function
+  | XH -> 1
+  | XO p -> let v = int_of_pos p in if v > max_int / 2 then max_int else 2 * v
+  | XI p -> let v = int_of_pos p in if v >= max_int / 2 then max_int else 2 * v + 1
 let int_of_n = function N0 -> 0 | Npos p -> int_of_pos p
 
 let starts_with s p = String.length s >= String.length p && String.sub s 0 (String.length p) = p
@@ -53,6 +57,8 @@ let file_of_spec (s : string) : n list =
   | 'P' -> (match String.split_on_char ':' (String.sub s 1 (String.length s - 1)) with
             | [l; sd] -> pattern (int_of_string sd) (int_of_string l) | _ -> failwith "bad P spec")
   | 'H' -> bytes_of_hex (String.sub s 1 (String.length s - 1))
+  | 'Z' -> (match String.split_on_char ':' (String.sub s 1 (String.length s - 1)) with
+            | [l; b] -> List.init (int_of_string l) (fun _ -> n_of_int (int_of_string b)) | _ -> failwith "bad Z spec")
   | _ -> failwith "bad file spec"
 
 (* file fingerprint: Fletcher-style sums modulo 2^32 - 5, packed b << 32 | a (same as harness util.rs) *)
@@ -293,7 +299,7 @@ let mon_pair prop case impl =
 (* ---- SRV ---- *)
 
 let spec_content (c : string) : n list =
-  if c = "-" then [] else if c.[0] = 'P' then file_of_spec (String.map (fun ch -> if ch = '_' then ':' else ch) c) else bytes_of_hex c
+  if c = "-" then [] else if c.[0] = 'P' || c.[0] = 'Z' then file_of_spec (String.map (fun ch -> if ch = '_' then ':' else ch) c) else bytes_of_hex c
 
 (* insert a path (list of segments) into a directory node *)
 let rec insert_node (nd : node) (segs : n list list) (leaf : node) : node =
@@ -408,6 +414,14 @@ let run_srv toks =
                 | Some (NFile _) when first <> None && cont = "M" ->
                   (* the window is retransmitted when the negotiated timeout has elapsed *)
                   emit ("rt=" ^ dec_of_n o.wo_tmo_s)
+                | Some (NFile _) when first <> None && cont = "K" ->
+                  (* ... and a repeated ACK before that brings nothing *)
+                  emit "early=0"
+                | Some (NFile content) when first <> None && cont = "R" ->
+                  (* ACKs in disorder: the stale one behind the ACK of the window is ignored, the sender never goes back *)
+                  let (datas, ph) = run_download o rep check content in
+                  let got = List.concat (List.filteri (fun i _ -> i mod (int_of_n rep) = 0) (List.map snd datas)) in
+                  emit (Printf.sprintf "ra=%s/0/%s" (fp_text got) (match ph with SDone OutOk -> "done" | _ -> "incomplete"))
                 | Some (NFile content) ->
                   if first <> None && cont = "D" then begin
                     let (datas, ph) = run_download o rep check content in
@@ -436,7 +450,7 @@ let run_srv toks =
                      | Some f -> (match create_file !root path f with Some r1 -> root := r1 | None -> ())
                      | None -> root := remove_file !root path);
                     emit (match ph with RDone OutOk -> "ul=acked" | _ -> "ul=noack:?")
-                  end else if first <> None && cont = "E" then begin
+                  end else if first <> None && (cont = "E" || cont = "F") then begin
                     if clean then root := remove_file !root path
                   end else if first <> None && cont = "-" then
                     abandoned := (c, path, clean) :: !abandoned
@@ -481,7 +495,7 @@ let srv_steps (steps : string) (impl : string) : steprec list * string =
       let dg = match fields with f :: _ -> if f = "-" then [] else bytes_of_hex f | [] -> [] in
       let cont = match fields with _ :: x :: _ -> x | _ -> "-" in
       let r = next () in
-      let x = if starts_with (peek ()) "dl=" || starts_with (peek ()) "ul=" || starts_with (peek ()) "rt=" then next () else "" in
+      let x = if List.exists (starts_with (peek ())) ["dl="; "ul="; "rt="; "early="; "ra="] then next () else "" in
       Some { skind = step.[0]; sclient = Char.code step.[1] - 48; sdg = dg; scont = cont; sreply = r; sxfer = x }
     end) (String.split_on_char ';' steps) in
   (recs, peek ())
@@ -699,8 +713,12 @@ let mon_srv prop case impl =
                  (match String.split_on_char '/' (String.sub r.sxfer 3 (String.length r.sxfer - 3)) with
                   | [fpr; _; maxpay; fb; _; _; _] ->
                     let len = int_of_string (List.hd (String.split_on_char ':' fpr)) in
-                    let nb = len / blk + 1 in
+                    let nb = len / (max 1 blk) + 1 in
                     if int_of_string maxpay <> min blk len then bad "block-length-differs-from-the-acknowledged-blksize";
+                    (* a conformant client ends at the first block shorter than the acknowledged length: that must be the file's end *)
+                    (if i = 0 && is_read then match kind_of init (join sdir (convert_file_path name)) with
+                       | FkFile sz when len < int_of_n sz -> bad "a-block-before-the-end-of-the-file-is-shorter-than-the-acknowledged-blksize"
+                       | _ -> ());
                     if int_of_string fb <> (min ws nb - 1) * rep + 1 then bad "window-differs-from-the-acknowledged-windowsize"
                   | _ -> ())
                end
@@ -745,7 +763,7 @@ let mon_srv prop case impl =
        let nrecs = List.length recs in
        List.iteri (fun i r ->
          match decoded r with
-         | Some (Wrq (name, _, _)) when r.scont = "E" && not (is_refusal (fst (reply_hex r.sreply))) && r.sreply <> "reply=none" ->
+         | Some (Wrq (name, _, _)) when (r.scont = "E" || r.scont = "F") && not (is_refusal (fst (reply_hex r.sreply))) && r.sreply <> "reply=none" ->
            let rel = relpath name in
            let later_same = List.exists (fun (j, r2) -> j > i && (match decoded r2 with Some (Wrq (n2, _, _)) -> relpath n2 = rel | _ -> false))
                (List.mapi (fun j x -> (j, x)) recs) in
@@ -769,10 +787,46 @@ let mon_srv prop case impl =
            | Some f when f = want -> ()
            | _ ->
              (* known finding D6: an upload of the same name accepted earlier was still in flight and failed later *)
-             if has_flag flags 'o' && List.exists (fun (j, rel2, r2) -> j < i && rel2 = rel && r2.sxfer <> "ul=acked" && r2.scont <> "E") accepted_wrq
+             if has_flag flags 'o' && List.exists (fun (j, rel2, r2) -> j < i && rel2 = rel && r2.sxfer <> "ul=acked" && r2.scont <> "E" && r2.scont <> "F") accepted_wrq
              then fail := "known:overlapping-uploads-same-path-overwrite-mode" :: !fail
              else bad "completed-upload-removed-or-altered"
          end) accepted_wrq
+     | "C04" | "C07" | "C08" | "C15" ->
+       (* the real-time histories of suite srv-rt *)
+       let want_tmo r = match decoded r with
+         | Some (Rrq (_, _, ros)) -> List.fold_left (fun a o -> if o.o_type = OTimeout then dec_of_n o.o_val else a) "5" ros
+         | _ -> "5" in
+       List.iter (fun r ->
+         if starts_with r.sxfer "rt=" then begin
+           if prop = "C04" && r.sxfer = "rt=none" then bad "no-retransmission-after-the-timeout";
+           if prop = "C07" && r.sxfer = "rt=none" then bad "silent-peer-neither-retransmitted-to-nor-given-up-on";
+           if prop = "C08" && r.sxfer <> "rt=none" && int_of_string (String.sub r.sxfer 3 (String.length r.sxfer - 3)) < int_of_string (want_tmo r)
+           then bad "retransmission-before-the-negotiated-timeout"
+         end;
+         if prop = "C08" && r.sxfer = "early=1" then bad "repeated-ACK-brought-the-retransmission-forward";
+         if prop = "C08" && starts_with r.sxfer "ra=" then begin
+           match String.split_on_char '/' r.sxfer with
+           | [_; regress; d] ->
+             if regress <> "0" then bad "went-back-behind-acknowledged-blocks-on-a-stale-ACK";
+             if d <> "done" then bad "transfer-with-ACKs-in-disorder-did-not-complete"
+           | _ -> ()
+         end) recs;
+       if prop = "C07" then
+         (* an accepted upload whose peer fell silent: given up after the retry limit (the case waits that long), its file removed or kept *)
+         List.iter (fun r ->
+           match decoded r with
+           | Some (Wrq (name, _, _)) when r.scont = "-" && r.skind = 'q' && not (is_refusal (fst (reply_hex r.sreply))) && r.sreply <> "reply=none"
+                                          && List.mem (Printf.sprintf "x%d" r.sclient) (String.split_on_char ';' steps) ->
+             (match kernel_segs (join rdir (convert_file_path name)) with
+              | _ :: rel ->
+                let rel = String.concat "/" (List.map string_of_bytes rel) in
+                (match List.assoc_opt rel final_entries with
+                 | Some _ when not (has_flag flags 'k') -> bad "silent-peer-upload-not-given-up-after-the-retry-limit"
+                 | None when has_flag flags 'k' -> bad "given-up-upload-removed-although-keep-on-error"
+                 | _ -> ())
+              | [] -> ())
+           | _ -> ()) recs;
+       if prop = "C15" then check_downloads ()
      | "C16" ->
        List.iter (fun r ->
          if starts_with r.sxfer "dl=" && ends_with r.sxfer "/done" then
@@ -783,7 +837,7 @@ let mon_srv prop case impl =
            | _ -> ()) recs
      | _ -> ());
     match List.filter (fun m -> not (starts_with m "known:")) !fail, !fail with
-    | [], [] -> (if List.mem prop ["C01"; "C02"; "C03"; "C05"; "C06"; "C09"; "C12"; "C13"; "C14"; "C16"] then "pass" else "skip")
+    | [], [] -> (if List.mem prop ["C01"; "C02"; "C03"; "C04"; "C05"; "C06"; "C07"; "C08"; "C09"; "C12"; "C13"; "C14"; "C15"; "C16"] then "pass" else "skip")
     | [], k :: _ -> k
     | m :: _, _ -> "fail:" ^ m
     end
@@ -1038,6 +1092,8 @@ let run_bin toks =
      | CErr _ -> "exit=1"
      | CHelp -> "exit=0")
   | [_; "rt"; _; tmo] -> "rt=" ^ tmo
+  | [_; "early"; _; _; ws] -> Printf.sprintf "first=%s early=0" ws   (* 5000 bytes: the first window is full *)
+  | [_; "quiet"; flags; _] -> Printf.sprintf "created=1 gone=%d" (if String.contains flags 'k' then 0 else 1)
   | [_; "dup"; n; ws; _] ->
     (* C16: exactly N+1 copies of every block, nothing retransmitted on a loss-free link, content intact *)
     let n = int_of_string n and ws = int_of_string ws in
@@ -1154,6 +1210,30 @@ let mon_cfg_fallback (cwd : string) (argv : n list list) (res : string) : string
       else "pass"
     | _ -> "pass"
   end
+
+(* C17: an address that does not parse makes the parse fail; [ips]: the case's oracle field (tokens that are IP addresses) *)
+let mon_cfg_ip (ips : string) (argv : n list list) (res : string) : string =
+  let known = if ips = "-" then [] else List.filter_map (fun it -> match String.index_opt it '=' with Some k -> Some (String.sub it 0 k) | None -> None) (String.split_on_char ';' ips) in
+  let rec bad = function
+    | a :: v :: r -> (List.mem (string_of_bytes a) ["-i"; "--ip-address"] && not (List.mem (tok v) known)) || bad (v :: r)
+    | _ -> false in
+  if starts_with res "ok" && bad argv then "fail:an-unparsable-address-was-accepted" else "pass"
+
+(* C17 (client): the direction is that of the last -u / -d *)
+let mon_ccfg_mode (argv : n list list) (res : string) : string =
+  let valued = ["-i"; "--ip-address"; "-p"; "--port"; "-b"; "--blocksize"; "-w"; "--windowsize"; "-t"; "--timeout"; "-rd"; "--receive-directory"] in
+  let rec scan mode = function
+    | a :: r ->
+      let a' = string_of_bytes a in
+      if List.mem a' valued then (match r with _ :: r' -> scan mode r' | [] -> mode)
+      else if a' = "-u" || a' = "--upload" then scan (Some true) r
+      else if a' = "-d" || a' = "--download" then scan (Some false) r
+      else scan mode r
+    | [] -> mode in
+  if not (starts_with res "ok") then "pass" else
+  match scan None argv, List.find_opt (fun t -> starts_with t "up=") (words res) with
+  | Some m, Some t -> if t = "up=" ^ (if m then "1" else "0") then "pass" else "fail:direction-is-not-that-of-the-last-mode-flag"
+  | _ -> "pass"
 
 let run_ccfg toks =
   match toks with
@@ -1360,7 +1440,23 @@ let run_mon (line : string) : string =
                if prop = "C16" || prop = "C08" then
                  (if impl = Printf.sprintf "copies=%d..%d blocks=%d same=1" (int_of_string n + 1) (int_of_string n + 1) (2 * int_of_string ws + 1) then "pass"
                   else "fail:data-blocks-not-emitted-exactly-N+1-times-in-real-time") else "skip"
-             | ["bin"; "rt"; _; tmo] -> if prop = "C09" then (if impl = "rt=" ^ tmo then "pass" else "fail:retransmission-interval-differs-from-the-acknowledged-timeout") else "skip"
+             | ["bin"; "rt"; _; tmo] ->
+               if prop = "C09" then (if impl = "rt=" ^ tmo then "pass" else "fail:retransmission-interval-differs-from-the-acknowledged-timeout")
+               else if prop = "C04" then (if starts_with impl "rt=" && impl <> "rt=none" then "pass" else "fail:no-retransmission-after-the-timeout")
+               else if prop = "C07" then (if starts_with impl "rt=" && impl <> "rt=none" then "pass" else "fail:silent-peer-neither-retransmitted-to-nor-given-up-on")
+               else if prop = "C08" then
+                 (if starts_with impl "rt=" && impl <> "rt=none" && int_of_string (String.sub impl 3 (String.length impl - 3)) < int_of_string tmo
+                  then "fail:retransmission-before-the-negotiated-timeout" else "pass")
+               else "skip"
+             | ["bin"; "early"; _; _; ws] ->
+               if prop = "C08" then (if impl = Printf.sprintf "first=%s early=0" ws then "pass" else "fail:repeated-ACK-brought-the-retransmission-forward-(or-window-size-not-kept)")
+               else "skip"
+             | ["bin"; "quiet"; flags; _] ->
+               if prop = "C07" || prop = "C13" then
+                 (if impl = run_bin (words case) then "pass"
+                  else if String.contains flags 'k' then "fail:given-up-upload-removed-although-keep-on-error"
+                  else "fail:silent-peer-upload-not-given-up-after-the-retry-limit")
+               else "skip"
              | ["bin"; "dirs"; _] ->
                if prop = "C03" || prop = "C17" then
                  (if impl = run_bin (words case) then "pass"
@@ -1381,20 +1477,24 @@ let run_mon (line : string) : string =
                 | v -> v)
              | "cfgperm" :: _ -> if prop = "C17" then (match mon_cfgperm impl with "pass" -> mon_cfg_dup case impl | v -> v)
                                  else if prop = "C16" then mon_cfg_dup case impl else "skip"
-             | ["cfg"; cwd; _; _; args] ->
+             | ["cfg"; cwd; _; ips; args] ->
                if prop = "C17" then
                  (let argv = if args = "-" then [] else List.map untok (String.split_on_char ',' args) in
                   match mon_cfg_dup case impl with
                   | "pass" -> (match mon_cfg_fallback (string_of_bytes (untok cwd)) argv impl with
-                      | "pass" -> mon_cfg_numeric ["-p"; "--port"; "--duplicate-packets"] argv impl
+                      | "pass" -> (match mon_cfg_numeric ["-p"; "--port"; "--duplicate-packets"] argv impl with
+                          | "pass" -> mon_cfg_ip ips argv impl
+                          | v -> v)
                       | v -> v)
                   | v -> v)
                else if prop = "C16" then mon_cfg_dup case impl else "skip"
              | "ccfgperm" :: _ -> if prop = "C17" then mon_cfgperm impl else "skip"
              | ["ccfg"; _; _; _; args] ->
                if prop = "C17" then
-                 mon_cfg_numeric ["-p"; "--port"; "-b"; "--blocksize"; "-w"; "--windowsize"; "-t"; "--timeout"]
-                   (if args = "-" then [] else List.map untok (String.split_on_char ',' args)) impl
+                 (let argv = if args = "-" then [] else List.map untok (String.split_on_char ',' args) in
+                  match mon_cfg_numeric ["-p"; "--port"; "-b"; "--blocksize"; "-w"; "--windowsize"; "-t"; "--timeout"] argv impl with
+                  | "pass" -> mon_ccfg_mode argv impl
+                  | v -> v)
                else "skip"
              | "win" :: _ -> if prop = "C18" then (if String.trim (run_win (words case)) = String.trim impl then "pass" else "fail:differs-from-the-verified-queue-specification") else "skip"
              | _ -> "skip"))
